@@ -15,14 +15,12 @@
 package core
 
 import (
-	"errors"
-
 	"rcproxy/core/codec"
 )
 
 func parseLen(p []byte) (int, error) {
 	if len(p) < 1 {
-		return -1, errors.New("malformed length")
+		return -1, codec.ErrInvalidResp
 	}
 
 	if p[0] == '-' && len(p) == 2 && p[1] == '1' {
